@@ -92,7 +92,7 @@ def h_reliable(cfg):
     from onl.packet import TCPPacketGenerator, TCPSink, TCPReno, TCPCubic, Flow
     env = Environment()
     m, kd, ka = cfg['m'], cfg['kd'], cfg['ka']
-    flow = Flow(flow_id=0, src='s', dst='d', finish_time=INF, size=m * MSS, start_time=cfg.get('start'))
+    flow = Flow(flow_id=0, src='s', dst='d', finish_time=cfg.get('finish', INF), size=m * MSS, start_time=cfg.get('start'))
     cc = TCPReno() if cfg['cc'] == 'reno' else TCPCubic()
     snd = TCPPacketGenerator(env, flow, cc, element_id='s', rtt_estimate=cfg['rtt0'])
     sink = TCPSink(env)
@@ -106,8 +106,15 @@ def h_reliable(cfg):
     except Exception as ex:  # noqa
         fail('no-raise', '%s: %s' % (type(ex).__name__, ex))
         return
-    check('c16.sink-has-all-data', sink.recv_buffer == [[0, m * MSS]], str(sink.recv_buffer))
-    check('c16.sender-acked-all', snd.last_ack == m * MSS, snd.last_ack)
+    if cfg.get('finish') is not None:
+        # a flow with a finish time hands over no new data after it; everything it did send is still delivered reliably
+        sent = snd.next_seq
+        check('c16.sink-has-all-data', sink.recv_buffer == ([[0, sent]] if sent else []), (str(sink.recv_buffer), sent))
+        check('c16.sender-acked-all', snd.last_ack == sent, (snd.last_ack, sent))
+        cover('finite-finish-time')
+    else:
+        check('c16.sink-has-all-data', sink.recv_buffer == [[0, m * MSS]], str(sink.recv_buffer))
+        check('c16.sender-acked-all', snd.last_ack == m * MSS, snd.last_ack)
     lossless = data.dropped == 0 and acks.dropped == 0 and not getattr(data, 'delayed', 0) and not getattr(acks, 'delayed', 0)
     if lossless and cfg['d1'] + cfg['d2'] < 2 * cfg['rtt0']:
         ids = [i for i, _, _ in data.sent]
@@ -149,6 +156,11 @@ def jobs(tier, seed):
             js.append({'harness': 'reliable', 'weight': 100,
                        'cfg': {'cc': cc, 'm': m, 'kd': m + 3, 'ka': 2, 'max_drops': 1, 'd1': 1.5, 'd2': 1.5, 'rtt0': 1.0,
                                'horizon': 100000}})
+    # a flow with a finish time: retransmissions that fall after it still happen
+    for cc in ('reno', 'cubic'):
+        js.append({'harness': 'reliable', 'weight': 50,
+                   'cfg': {'cc': cc, 'm': 2, 'kd': 4, 'ka': 2, 'max_drops': 2, 'd1': 0.25, 'd2': 0.25, 'rtt0': 1.0, 'finish': 1.5,
+                           'horizon': 100000}})
     # a flow that starts later
     for cc in ('reno', 'cubic'):
         js.append({'harness': 'reliable', 'weight': 50,
@@ -194,7 +206,7 @@ META = {
             '(symbolic Booleans per transmission index); non-trivial = at least one packet dropped / any segment sequence',
     'required_labels': ['c16.ack-is-prefix-length', 'c16.ack-monotone', 'c16.sink-has-all-data', 'c16.sender-acked-all',
                         'c16.no-spurious-retransmission'],
-    'required_covers': ['nontrivial', 'ack-dropped', 'data-dropped', 'lossless-path', 'reordered-by-delay'],
+    'required_covers': ['nontrivial', 'ack-dropped', 'data-dropped', 'lossless-path', 'reordered-by-delay', 'finite-finish-time'],
     'bounds': {'quick': 'Part A: n<=4 segments, seq>=0 and size>=1 symbolic (also MSS-aligned); Part B: flow of 2-3 MSS, drop pattern over the '
                         'first 4 data / 4 ACK transmissions (or 3+3), plus flows of 5-6 MSS with at most 2 drops anywhere among the first m+3 data / ACK transmissions; '
                         'one-way delays {0.25,1.5}, initial RTT estimate 1.0, Reno and CUBIC, horizon 1e5',
